@@ -162,20 +162,49 @@ def _pub(b, compressed):
 
 
 def _keygen(draw, from_top=False):
-    """secrets.randbelow(bound) returns `draw`, or bound-1-draw when from_top (the largest values the source can return)"""
+    """secrets.randbelow(bound) returns `draw`, or bound-1-draw when from_top (the largest values the source can return);
+    the other entry points of the `secrets` / `random.SystemRandom` / `os.urandom` family are scripted consistently
+    (first call: the same value as a 32-byte big-endian string / bit string, later calls: real randomness, so that
+    rejection loops terminate) - whatever source key() draws from, the value it sees first is the edge value"""
     import bits.keys
-    seen = []
+    import os
     import secrets
-    orig = secrets.randbelow
+    seen = []
+    state = {"first": True}
+    orig = (secrets.randbelow, secrets.token_bytes, secrets.randbits, os.urandom)
+    N_ = bits.ecmath.SECP256K1_N
 
-    def fake(n):
+    def value(bound):
+        return bound - 1 - draw if from_top else draw
+
+    def fake_randbelow(n):
         seen.append(n)
-        return n - 1 - draw if from_top else draw
-    secrets.randbelow = fake
+        return value(n)
+
+    def edge_int(nbits):
+        # the integer the source "returns" on its first call: the draw counted from 0, or from the top of the range
+        v = (2 ** nbits - 1 - draw) if from_top else draw
+        return v % (2 ** nbits)
+
+    def fake_token_bytes(nbytes=32):
+        if state["first"]:
+            state["first"] = False
+            seen.append(N_ - 1)                      # reported like the pinned randbelow(n - 1) call
+            return edge_int(8 * nbytes).to_bytes(nbytes, "big")
+        return orig[1](nbytes)
+
+    def fake_randbits(k):
+        if state["first"]:
+            state["first"] = False
+            seen.append(N_ - 1)
+            return edge_int(k)
+        return orig[2](k)
+
+    secrets.randbelow, secrets.token_bytes, secrets.randbits = fake_randbelow, fake_token_bytes, fake_randbits
     try:
         k = bits.keys.key()
     finally:
-        secrets.randbelow = orig
+        secrets.randbelow, secrets.token_bytes, secrets.randbits = orig[:3]
     return [k, seen]
 
 
@@ -397,6 +426,32 @@ def gen_cases(rng, tier):
         # off-curve / out-of-range inputs: errors must coincide
         out.append(case(cname + "-add-range", "add", cname, (cv["p"], 1), cv["G"]))
         out.append(case(cname + "-on-all", "on", cname, 1, 1))
+    # --- scalars far wider than the group order (the loop length is the scalar's bit length, not 256)
+    for k in [2 ** 512 - 1, 2 ** 512, 2 ** 512 + 1, 2 ** 513 + 5, 2 ** 1024 + 3, N ** 3 + 1, 2 ** 521 - 1] + \
+            ([rng.randrange(2 ** 600, 2 ** 601) for _ in range(3)] if T else []):
+        out.append(case("secp-mul-very-wide", "mul", "secp", k, G))
+    out.append(case("secp-distrib-wide", "distrib", "secp", 2 ** 511 + 9, 2 ** 511 + 7, G))
+    out.append(case("secp-assoc-wide", "assoc", "secp", 2 ** 300 + 1, 2 ** 300 + 3, G))
+    for cname in ("c43", "c79", "c67"):
+        for k in [2 ** 512, 2 ** 512 + 1, 2 ** 1024 + 3, 2 ** 2000 + 1]:
+            out.append(case(cname + "-mul-very-wide", "mul", cname, k, CURVES[cname]["G"]))
+    # --- pairs of scalars that collide under cheap fingerprints, back to back in one process: CPython's int hash
+    #     (k and k + j*(2**61 - 1)), the low 64 / 256 bits, the same residue mod n
+    M61 = 2 ** 61 - 1
+    for i in range(6 if not T else 40):
+        k1 = rng.randrange(1, N)
+        for k2 in (k1 + rng.randrange(1, 8) * M61, k1 + (rng.randrange(1, 2 ** 60) << 64), k1 + (1 << 256), k1 + N):
+            A = rng.choice([G, some[0]])
+            out.append(case("secp-mul-fingerprint-pair", "mul", "secp", k1, A))
+            out.append(case("secp-mul-fingerprint-pair", "mul", "secp", k2, A))
+    for cname in ("c43", "c79", "c67"):
+        cvv = CURVES[cname]
+        for i in range(10 if not T else 60):
+            k1 = rng.randrange(1, cvv["n"])
+            A = rng.choice(all_points(cvv)[1:])
+            for k2 in (k1 + M61, k1 + 3 * M61, k1 + (1 << 64)):
+                out.append(case(cname + "-mul-fingerprint-pair", "mul", cname, k1, A))
+                out.append(case(cname + "-mul-fingerprint-pair", "mul", cname, k2, A))
     # --- coordinates congruent to a curve point's modulo p but outside [0, p): never "on the curve"
     for cname in ("secp", "c43", "c79", "c67"):
         cv = CURVES[cname]
